@@ -84,6 +84,25 @@ def gen(chk, tier):
                           nilreader=False, script=script)
                     g.one("fault_at_%s" % ("unit_boundary" if off % 32 == 0 else "mid_unit"), "sm2.sign", kind="hashed",
                           priv=b32(d), e=rb(rng, 32), script=[dict(s) for s in script])
+    # a source that returns an error in the middle of a unit and THEN keeps delivering bytes: the call
+    # must still fail at that error (n > 0 with EOF, n > 0 with another error, n = 0), also after
+    # rejected candidates
+    for nrej in (0, 1, 2):
+        for part in (1, 10, 31):
+            for err in ("EOF", "boom"):
+                for zero in (False, True):
+                    rej = [0, N][:nrej]
+                    pre = []
+                    for c_ in rej:
+                        pre += b32(c_)
+                    good = b32(rscalar(rng)) + b32(rscalar(rng)) + b32(rscalar(rng))
+                    if zero:
+                        script = [dict(d=pre + good[:part], err=""), dict(d=[], err=err), dict(d=good[part:], err="")]
+                    else:
+                        script = [dict(d=pre + good[:part], err=err), dict(d=good[part:], err="")]
+                    g.one("error_then_more_data", "sm2.genkey", nilreader=False, script=script)
+                    g.one("error_then_more_data", "sm2.sign", kind="hashed", priv=b32(d), e=rb(rng, 32),
+                          script=[dict(x) for x in script])
     # short reads without error are completed (1-byte reads, ragged reads)
     for _ in range(4 if q else 40):
         stream = b32(0) + b32(rscalar(rng)) + b32(rscalar(rng))
@@ -113,7 +132,7 @@ def keyfn(b):
 
 def run(tier):
     chk = Check(PROP, tier)
-    chk.model("MC_Reader")
+    chk.model("MC_Reader", cfg="MC_Reader.cfg" if tier == "quick" else "MC_Reader_thorough.cfg", timeout=3000)
     chk.exec_and_validate("T_SM2", gen(chk, tier), keyfn, accel=True, families=("bits", "big"))
     return chk.finish(
         "model_checking",
